@@ -114,6 +114,10 @@ func VerifOSClient(spec VerifOSClientSpec) VerifOSClientObs {
 		}
 		mu.Unlock()
 	}
+	// the process-exit notification (whenDone) runs in its own goroutine: give it time
+	for deadline := time.Now().Add(2 * time.Second); runner.isRunning() && time.Now().Before(deadline); {
+		time.Sleep(time.Millisecond)
+	}
 	mu.Lock()
 	defer mu.Unlock()
 	out := obs
